@@ -48,6 +48,18 @@ type sentinelErr struct{ s string }
 
 func (e *sentinelErr) Error() string { return e.s }
 
+// builtOn is the model of "the primitives a composite is built on" (package os and the
+// library's documentation: ReadFile opens, reads and closes a file, ...). A successful
+// composite call must have put each of them to the failure function at least once -
+// otherwise a plan that fails that primitive can never make the composite fail.
+var builtOn = map[string][]avfs.FnVFS{
+	"Create":    {avfs.FnOpenFile},
+	"WriteFile": {avfs.FnOpenFile, avfs.FnFileWrite, avfs.FnFileClose},
+	"ReadFile":  {avfs.FnOpenFile, avfs.FnFileRead, avfs.FnFileClose},
+	"ReadDir":   {avfs.FnOpenFile, avfs.FnFileReadDir, avfs.FnFileClose},
+	"MkdirTemp": {avfs.FnMkdir},
+}
+
 type inst struct {
 	kind    string
 	a, b    avfs.VFS // base behind FailFS, twin base
@@ -128,6 +140,10 @@ func (in *inst) step(c *vt.Ctx, cs Case, o fsx.Op) (*vt.Deviation, bool) {
 	before := in.snap(in.a, true)
 	firedBefore := in.fired
 	cBefore := in.counts[opFn[o.K]]
+	inner := map[avfs.FnVFS]int{}
+	for _, fn := range builtOn[o.K] {
+		inner[fn] = in.counts[fn]
+	}
 	out := in.rf.Do(o)
 	if out.Err == "PANIC" && out.Val != "nil-handle" {
 		return mk("panic", out.Note), false
@@ -166,6 +182,16 @@ func (in *inst) step(c *vt.Ctx, cs Case, o fsx.Op) (*vt.Deviation, bool) {
 	}
 	// no fault during this call: transparent
 	ref := in.rb.Do(o)
+	if (cs.Plan == "ok" || cs.Plan == "fault") && out.Err == "ok" {
+		for _, fn := range builtOn[o.K] {
+			if in.counts[fn] == inner[fn] {
+				return mk("primitive-not-consulted", fmt.Sprintf("the call succeeded without the failure function being asked about %s, a primitive it is built on: no failure of %s can make it fail", fn, fn)), false
+			}
+		}
+		if len(builtOn[o.K]) > 0 {
+			c.Label("composite-consults-primitives:" + o.K)
+		}
+	}
 	if (o.K == "CreateTemp" || o.K == "MkdirTemp") && out.Err == "ok" {
 		// random names: give both the same canonical name right away
 		return nil, true
